@@ -46,3 +46,11 @@ Example aliasing_example :
   /\ mutate 1 append2 (snd (fresh 10 game)) = snd (fresh 10 game)
   /\ ids (snd (fresh 10 game)) = [10; 11; 12].
 Proof. vm_compute. repeat split. Qed.
+
+From Bardic Require Import DeepCopy DeepCopyProofs.
+(* --- C16: on values without sharing the deepcopy model and Cells.fresh coincide ----------------------------- *)
+Theorem deepcopy_without_sharing_is_fresh : forall v n,
+  NoDup (ids v) ->
+  snd (deepcopy_memo n [] v) = snd (fresh n v) /\ fst (fst (deepcopy_memo n [] v)) = fst (fresh n v).
+Proof. exact deepcopy_unshared_is_fresh. Qed.
+Print Assumptions deepcopy_without_sharing_is_fresh.
